@@ -90,6 +90,8 @@ def real_scale(seed, ncases, variants, maxworkers, prefix="real", kinds=None, ba
         if huge:
             f.write(json.dumps({"seed": seed, "idx": 0, "variants": 2, "maxworkers": maxworkers, "badger": False,
                                 "cli": False, "huge": huge}) + "\n")
+            f.write(json.dumps({"seed": seed, "idx": 0, "variants": 2, "maxworkers": maxworkers, "badger": False,
+                                "cli": False, "fat": 400 if huge < 2000 else 1200}) + "\n")
         for i in range(ncases):
             f.write(json.dumps({"seed": seed, "idx": i, "variants": variants, "maxworkers": maxworkers,
                                 "badger": badger, "cli": cli and i % 3 == 0}) + "\n")
